@@ -164,6 +164,7 @@ func runChild(id, tier string, seed int64, cases, mode string) int {
 	}
 	// the library logs through slog; keep it out of the way (and cheap).
 	slog.SetDefault(slog.New(slog.NewTextHandler(io.Discard, &slog.HandlerOptions{Level: slog.Level(100)})))
+	bad := 0
 	for _, n := range parseCases(cases) {
 		c := &caseCtx{id: id, tier: tier, seed: seed, mode: mode, n: n}
 		c.rng = rand.New(rand.NewSource(caseSeed(seed, id, mode, n)))
@@ -174,6 +175,14 @@ func runChild(id, tier string, seed int64, cases, mode string) int {
 			res.Verdict = vHeld
 		}
 		emit("END", res)
+		if res.Verdict == vViolated || res.Verdict == vInconclusive {
+			bad++
+			if bad >= 3 {
+				// the verdict of the run is settled; do not burn the remaining budget on watchdogs
+				emit("ABORT", map[string]any{"after_case": n})
+				break
+			}
+		}
 	}
 	return 0
 }
@@ -313,6 +322,7 @@ func runChunk(self string, raceBin string, id, tier string, seed int64, work str
 		time.AfterFunc(10*time.Second, func() { _ = cmd.Process.Kill() })
 	})
 	open := -1
+	aborted := false
 	results := map[int]bool{}
 	sc := bufio.NewScanner(stdout)
 	sc.Buffer(make([]byte, 1<<20), 64<<20)
@@ -326,6 +336,8 @@ func runChunk(self string, raceBin string, id, tier string, seed int64, work str
 			}
 			_ = json.Unmarshal([]byte(line[8:]), &b)
 			open = b.Case
+		} else if strings.HasPrefix(line, "@@ABORT ") {
+			aborted = true
 		} else if strings.HasPrefix(line, "@@END ") {
 			var r caseResult
 			if err := json.Unmarshal([]byte(line[6:]), &r); err == nil {
@@ -377,6 +389,9 @@ func runChunk(self string, raceBin string, id, tier string, seed int64, work str
 		// exit status 66: the race detector's own exit code; already accounted for.
 		exitOK = true
 	}
+	if aborted && exitOK && open == -1 {
+		return
+	}
 	if !exitOK || len(results) != len(job.cases) {
 		if timedOut {
 			r := caseResult{Mode: job.mode.name, Case: open, Verdict: vInconclusive,
@@ -423,6 +438,10 @@ func (a *aggregate) add(r caseResult) {
 
 func runParent(id, tier string, seed int64, work, raceBin, verifDir, repoDir, replayFile string) int {
 	start := time.Now()
+	outDir := verifDir
+	if v := os.Getenv("VERIF_OUT"); v != "" {
+		outDir = v
+	}
 	p := props[id]
 	if p == nil {
 		fmt.Fprintln(os.Stderr, "unknown property", id)
@@ -520,6 +539,14 @@ func runParent(id, tier string, seed int64, work, raceBin, verifDir, repoDir, re
 			defer wg.Done()
 			sem[j.mode.name] <- struct{}{}
 			global <- struct{}{}
+			mu.Lock()
+			settled := len(agg.violations) >= 5
+			mu.Unlock()
+			if settled && replayFile == "" {
+				<-global
+				<-sem[j.mode.name]
+				return
+			}
 			runChunk(self, raceBin, id, tier, seed, work, j, agg, &mu)
 			<-global
 			<-sem[j.mode.name]
@@ -560,7 +587,7 @@ func runParent(id, tier string, seed int64, work, raceBin, verifDir, repoDir, re
 	exit := 0
 	if len(agg.violations) > 0 {
 		exit = 1
-		dir := filepath.Join(verifDir, "replays", id)
+		dir := filepath.Join(outDir, "replays", id)
 		_ = os.MkdirAll(dir, 0o755)
 		seen := map[string]bool{}
 		for i, v := range agg.violations {
@@ -589,7 +616,7 @@ func runParent(id, tier string, seed int64, work, raceBin, verifDir, repoDir, re
 			}
 			fmt.Printf("INCONCLUSIVE property=%s mode=%s case=%d: %s\n", id, v.Mode, v.Case, firstN(v.Detail, 600))
 			if v.LogTail != "" {
-				dir := filepath.Join(verifDir, "replays", id)
+				dir := filepath.Join(outDir, "replays", id)
 				_ = os.MkdirAll(dir, 0o755)
 				path := filepath.Join(dir, fmt.Sprintf("%s-%s-seed%d-%s-case%d.inconclusive.log", id, tier, seed, v.Mode, v.Case))
 				_ = os.WriteFile(path, []byte(v.Detail+"\n\n"+v.LogTail), 0o644)
@@ -599,7 +626,7 @@ func runParent(id, tier string, seed int64, work, raceBin, verifDir, repoDir, re
 	}
 
 	if replayFile == "" {
-		writeEvidence(p, agg, tier, seed, verifDir, time.Since(start), distinct)
+		writeEvidence(p, agg, tier, seed, outDir, time.Since(start), distinct)
 	}
 	fmt.Printf("%s %s seed=%d: %d cases, %d distinct non-trivial, %d violation(s), %d inconclusive, %d race report(s), %.1fs\n",
 		id, tier, seed, agg.evaluations, distinct, len(agg.violations), len(agg.inconclusive), agg.raceRaw, time.Since(start).Seconds())
